@@ -118,19 +118,26 @@ impl JwsHeader {
     !has_duplicate && self.common.is_disjoint(other.common()) && self.is_custom_disjoint(other)
   }
 
-  /// Returns `true` if none of the fields are set in both `self.custom` and `other.custom`.
+  /// Returns `true` if no custom parameter of either header shares its name with a parameter of the other.
   fn is_custom_disjoint(&self, other: &JwsHeader) -> bool {
-    match (&self.custom, &other.custom) {
-      (Some(self_custom), Some(other_custom)) => {
-        for self_key in self_custom.keys() {
-          if other_custom.contains_key(self_key) {
-            return false;
-          }
-        }
-        true
-      }
-      _ => true,
-    }
+    // A custom parameter must not share its name with any parameter of the other header,
+    // whether that one is custom or set through a dedicated field (e.g. `kid`).
+    let clashes = |custom: &Option<BTreeMap<String, Value>>, header: &JwsHeader| -> bool {
+      custom
+        .as_ref()
+        .map(|custom| {
+          custom.keys().any(|key| {
+            header.has(key)
+              || header
+                .custom
+                .as_ref()
+                .map(|other| other.contains_key(key))
+                .unwrap_or(false)
+          })
+        })
+        .unwrap_or(false)
+    };
+    !clashes(&self.custom, other) && !clashes(&other.custom, self)
   }
 }
 
